@@ -156,6 +156,28 @@ Definition next_params (w : wallet) (st : acct) : res (N * option cell) :=
   | _ => Err EWallet
   end.
 
+(** *** the polled account record.  Applications obtain the account state by
+    tlb.Unmarshal into a variable they reuse across polls.  decodeSumType sets
+    the outer tag (AccountNone / Account) and decodes the chosen variant only: the
+    Account variant keeps whatever an earlier poll left in it.  Account.Status()
+    looks at the outer tag first, then at the state tag of the Account variant
+    (an empty tag panics). *)
+Record acct_var := mkav {
+  av_none : bool;                 (* SumType = "AccountNone" *)
+  av_inner : option acct          (* Account.Storage.State: uninit / frozen / active data; None = never decoded *)
+}.
+Definition fresh_var : acct_var := mkav false None.
+Definition decode_into (v : acct_var) (rec : acct) : acct_var :=
+  match rec with
+  | ANone => mkav true (av_inner v)
+  | st => mkav false (Some st)
+  end.
+Definition var_status (v : acct_var) : res acct :=
+  if av_none v then Ok ANone
+  else match av_inner v with Some st => Ok st | None => Panic PExplicit end.
+Definition next_params_var (w : wallet) (v : acct_var) : res (N * option cell) :=
+  do st <- var_status v; next_params w st.
+
 (** *** confirmation loop.  A history is the list of polls: the elapsed time
     the loop condition reads before the poll, and the answer of GetSeqno (None =
     error).  The list ends where the clock passes the deadline for good. *)
